@@ -543,4 +543,10 @@ class Oracle:
             elif later:
                 r = dict(r, partial=True)       # partly overwritten: outside the property (fields are covered fully or not at all)
             out.append((start, r["fmt"], v, r))
+        # two live references on overlapping bytes are not a program (macro-generated code emits one placeholder per reference); the shrinker
+        # can produce this by removing the emission between two reference calls
+        live = sorted((st, st + fmt_size(f)) for (st, f, _, r) in out if not r.get("dead"))
+        for (a, b), (c, d) in zip(live, live[1:]):
+            if c < b:
+                raise Unsupported("overlapping reference fields")
         return out
